@@ -26,5 +26,24 @@ out.append(">>")
 out.append("StbC == <<")
 out.append(",\n".join("   << " + ",\n      ".join(", ".join(le(w) for w in C[8 * i + j:8 * i + j + 2]) for j in range(0, 8, 2)) + " >>" for i in range(12)))
 out.append(">>")
+# cache of the per-octet table that Streebog.tla derives from StbA and StbPi (definition StbTabPdef there; an ASSUME
+# in Streebog.tla checks literal = derivation inside TLC on every load).  pi is read from Streebog.tla (typed from the RFC).
+import os
+st = open(os.path.join(os.path.dirname(os.path.abspath(__file__)), "..", "specs", "crypto", "Streebog.tla")).read()
+PI = [int(x) for x in re.search(r"StbPi == <<(.*?)>>", st, re.S).group(1).replace("\n", " ").split(",")]
+assert sorted(PI) == list(range(256))
+out.append("\\* StbTabP[b+1][x+1], b = 0..7, x = 0..255: l(pi(x) * 2^(8b)) as four halves, least significant first (cache, see Streebog.tla)")
+out.append("StbTabP == <<")
+rowsout = []
+for b in range(8):
+    ents = []
+    for x in range(256):
+        y = PI[x]; acc = 0
+        for m in range(8):
+            if (y >> m) & 1: acc ^= A[63 - 8 * b - m]
+        ents.append("<<%d,%d,%d,%d>>" % (acc & 0xffff, (acc >> 16) & 0xffff, (acc >> 32) & 0xffff, (acc >> 48) & 0xffff))
+    rowsout.append("   <<" + ",\n     ".join(",".join(ents[i:i + 6]) for i in range(0, 256, 6)) + ">>")
+out.append(",\n".join(rowsout))
+out.append(">>")
 out.append("=============================================================================")
 print("\n".join(out))
